@@ -55,21 +55,34 @@ def run_case(case, work, rec):
                 with np.errstate(all="ignore"):
                     exp = gen.covering(m, fidx, L).astype(dtype)
                 nfl = [m.nfiles(lv) for lv in range(L + 1)]
+                # recording run: which pool calls does this invocation make (not assumed to be one per level)
+                pools.CTL.reset(mode="inproc", default="identity")
+                rec_out = os.path.join(work, "ugrid_rec.npy")
+                rargs = ["whip", "-v", field, "-d", dtype, "-y", "-o", rec_out, path]
+                if limit is not None:
+                    rargs[1:1] = ["-l", str(limit)]
+                try:
+                    with common.argv(rargs):
+                        cli.main()
+                except (Exception, SystemExit):
+                    pass
+                ncalls = [c[1] for c in pools.CTL.calls]
                 plans = [({}, "identity")]
-                for lv in range(L + 1):
-                    if nfl[lv] < 2:
+                for ci, nt in enumerate(ncalls):
+                    if nt < 2:
                         continue
-                    if nfl[lv] <= 4:
-                        perms = list(itertools.permutations(range(nfl[lv])))[1:]
+                    if nt <= 4:
+                        perms = list(itertools.permutations(range(nt)))[1:]
                     else:
-                        perms = []
+                        perms = [tuple(reversed(range(nt)))]
                         for _ in range(5):
-                            p = list(range(nfl[lv])); rng.shuffle(p); perms.append(tuple(p))
+                            p = list(range(nt)); rng.shuffle(p); perms.append(tuple(p))
                     if dtype == "float32" or limit is not None:
                         perms = perms[:3]
                     for p in perms:
-                        plans.append(({lv: p}, "identity"))
+                        plans.append(({ci: p}, "identity"))
                 plans.append(({}, "shuffle"))
+                plans.append(({}, "reverse"))
                 for pi, (plan, default) in enumerate(plans):
                     mode = "fork" if pi % 6 == 2 else "inproc"
                     pools.CTL.reset(mode=mode, plan=plan, default=default, seed=rng.randrange(10 ** 6))
@@ -98,8 +111,6 @@ def run_case(case, work, rec):
                     if dtype == "float32":
                         rec.count("float32")
                     probs = []
-                    if len(pools.CTL.calls) != L + 1:
-                        probs.append(f"{len(pools.CTL.calls)} pool calls for {L + 1} selected levels")
                     if str(got.dtype) != dtype:
                         probs.append(f"dtype {got.dtype} != {dtype}")
                     if got.shape != exp.shape:
